@@ -289,6 +289,80 @@ fn dt_canon(s: &str) -> Option<String> {
     }
 }
 
+/// string tokens of a document, found by a tolerant scan (the document may be unreadable as a whole)
+fn strings_of_text(text: &str) -> Vec<String> {
+    let cs: Vec<char> = text.chars().collect();
+    let mut out = Vec::new();
+    let mut i = 0;
+    while i < cs.len() {
+        if cs[i] == '"' {
+            let mut k = i + 1;
+            while k < cs.len() && cs[k] != '"' {
+                if cs[k] == '\\' {
+                    k += 1;
+                }
+                k += 1;
+            }
+            if k < cs.len() {
+                let tok: String = cs[i..=k].iter().collect();
+                if let Ok(s) = serde_json::from_str::<String>(&tok) {
+                    out.push(s);
+                }
+            }
+            i = k + 1;
+        } else {
+            i += 1;
+        }
+    }
+    out
+}
+
+/// number tokens serde_json refuses to read as f64 (out of range): the model does not cover them
+fn has_unreadable_float(text: &str) -> bool {
+    let cs: Vec<char> = text.chars().collect();
+    let mut i = 0;
+    while i < cs.len() {
+        if cs[i].is_ascii_digit() || cs[i] == '-' {
+            let mut k = i;
+            while k < cs.len() && (cs[k].is_ascii_digit() || matches!(cs[k], '-' | '+' | '.' | 'e' | 'E')) {
+                k += 1;
+            }
+            let tok: String = cs[i..k].iter().collect();
+            if (tok.contains('e') || tok.contains('E') || tok.len() > 300) && tok.chars().any(|c| c.is_ascii_digit()) {
+                // try every prefix that is a complete number: the reader stops at the first character it cannot use
+                let mut ok_prefix = false;
+                let mut bad_prefix = false;
+                for end in 1..=tok.len() {
+                    match serde_json::from_str::<f64>(&tok[..end]) {
+                        Ok(_) => ok_prefix = true,
+                        Err(e) => {
+                            if e.to_string().contains("out of range") {
+                                bad_prefix = true;
+                            }
+                        }
+                    }
+                }
+                let _ = ok_prefix;
+                if bad_prefix {
+                    return true;
+                }
+            }
+            i = k.max(i + 1);
+        } else {
+            i += 1;
+        }
+    }
+    false
+}
+
+fn atoms_of_strings(mut ss: Vec<String>) -> Value {
+    ss.sort();
+    ss.dedup();
+    let ip: Vec<Value> = ss.iter().map(|s| json!([s, ip_canon(s)])).collect();
+    let dt: Vec<Value> = ss.iter().map(|s| json!([s, dt_canon(s)])).collect();
+    json!({"ip": ip, "dt": dt})
+}
+
 fn atoms_of(j: &J) -> Value {
     let mut ss = Vec::new();
     j.strings(&mut ss);
@@ -792,6 +866,9 @@ fn run_parse(case: &Value) -> Obs {
         Some(t) => t,
         None => return Obs::invalid("text"),
     };
+    if has_unreadable_float(&text) {
+        return Obs::invalid("a float outside the range of f64 (not modelled)");
+    }
     let (obs, ok) = match J::parse(&text) {
         Ok(j) => (json!({"ok": true, "text": j.norm_floats().print()}), true),
         Err(_) => (json!({"ok": false, "text": null}), false),
@@ -843,9 +920,15 @@ fn run_de(case: &Value, j: Option<&J>) -> Obs {
         "paq" => de_generic::<PathAndQueryWithSkipped>(&text),
         _ => return Obs::invalid("ty"),
     };
+    if from_text && has_unreadable_float(&text) {
+        return Obs::invalid("a float outside the range of f64 (not modelled)");
+    }
     if ty == "request" {
-        // a document serde_json cannot read as a whole (junk under an unknown key) keeps the table it came with
-        if let Some(j) = j {
+        if from_text {
+            if case.get("atoms") != Some(&atoms_of_strings(strings_of_text(&text))) {
+                return Obs::invalid("stale atoms");
+            }
+        } else if let Some(j) = j {
             if let Err(o) = check_atoms(case, j) {
                 return o;
             }
@@ -1565,14 +1648,8 @@ fn emit_text(rng: &mut Prng, emit: &mut dyn FnMut(Value), ty: &str, j: &J, base_
     if rng.chance(2, 5) {
         text_edits(rng, &mut text, &mut classes);
     }
-    let atoms = if ty == "request" {
-        match J::parse(&text) {
-            Ok(p) => atoms_of(&p),
-            Err(_) => atoms_of(atoms_from),
-        }
-    } else {
-        Value::Null
-    };
+    let _ = atoms_from;
+    let atoms = if ty == "request" { atoms_of_strings(strings_of_text(&text)) } else { Value::Null };
     emit(json!({"k": "de", "ty": ty, "text": text, "atoms": atoms, "mut": classes}));
     emit(json!({"k": "parse", "text": text, "mut": classes}));
     2
